@@ -63,6 +63,7 @@ def evalHole (E : Ext) (e : BEnv) (cur : Val) : Hole → Val
   | .arg i => e.arg i
   | .argSlice i => match e.arg i with | .nil => .slice [] | v => v
   | .argOcts i => .octs (bytesOf (e.arg i))
+  | .argStr i => .str (bytesOf (e.arg i))
   | .deref i => match e.arg i with | .ptr v => v | _ => .nil
   | .elem => cur
   | .ip4 i =>
@@ -558,13 +559,19 @@ def Wrapper.run (E : Ext) (w : Wrapper) (plmn : Bytes) (args : List Val) : BRes 
 /-- the PDU a wrapper encodes, as one skeleton (what the surgery yields): used by the theorems about wrappers -/
 def tGetNGSetupRequest : Template := {
   name := "GetNGSetupRequest", message := .NGSetupRequest, roles := [.gnbid, .plmn, .bitlen, .name], dims := [],
-  cases := [⟨[], .val (initiating 21 reject 7 (ngSetupIEs (.hole (.bitsLen 0 2)) (.hole (.arg 3))))⟩] }
+  cases := [⟨[], .val (initiating 21 reject 7 (ngSetupIEs (.hole (.bitsLen 0 2)) (.hole (.argStr 3))))⟩] }
 
 def tGetPathSwitchRequest : Template := {
   name := "GetPathSwitchRequest", message := .PathSwitchRequest, roles := [.amf, .ran], dims := [],
   cases := [⟨[], .val (initiating 25 reject 8 (pathSwitchIEs.take 5))⟩] }
 
-/-- the skeleton behind each wrapper and how the wrapper's arguments map to the template's -/
+/-- the arguments the wrapper passes on (`GetInitialContextSetupResponseForServiceRequest` adds a nil failed-list) -/
+def Wrapper.args (w : Wrapper) (args : List Val) : List Val :=
+  match w with
+  | .GetInitialContextSetupResponseForServiceRequest => args ++ [.nil]
+  | _ => args
+
+/-- the skeleton behind each wrapper -/
 def Wrapper.template : Wrapper → Template
   | .GetNGSetupRequest => tGetNGSetupRequest
   | .GetInitialUEMessage => tInitialUEMessage
